@@ -29,19 +29,28 @@ merge-sorted order; per-file log: the mainline revisions listed by the
 per-file-graph generator and by the delta-matching generator are the same, and
 every revision that changed the file (compared with its left parent) is listed.
 
-Mutants this was built against (scratch worktree /var/tmp/wt-C25; see report):
-  M1 reverse_by_depth: zd_revisions.reverse() dropped
-  M2 reverse_by_depth: recursion with _depth instead of _depth + 1 guarded (sub-chunks not reversed)
-  M3 _rebase_merge_depth: `d - min_depth` -> `d - min_depth + 1`
-  M4 _graph_view_revisions: depth adjustment never reduced (`if merge_depth < depth_adjustment` dropped)
-  M5 _linear_view_revisions: start revision dropped from the range (`if not exclude_common_ancestry` inverted)
-  M6 _calc_view_revisions: forward linear view not reversed
-  M7 iter_log_revisions: `merge_depth >= self.levels` -> `>`
-  M8 iter_log_revisions: limit off by one (`log_count > self.limit`)
-  M9 _filter_revisions_touching_path: `del current_merge_stack[depth + 1:]` -> `[depth + 2:]`
-  M10 _generate_all_revisions: initial (delayed) revisions dropped from the chain
-  M11 _graph_view_revisions: stop rule 'with-merges' -> 'include'
-  H1 harmless: list comprehension in _rebase_merge_depth replaced by a loop; min() over a generator
+Findings (reported; see known_findings.json / fix: commits): the model follows the
+code *with* the three fixes `fix-1..3` (forward delta matching, a start without
+an end, _is_obvious_ancestor comparing one number); two families remain and are
+classified from the concrete input by file_family():
+  delta-matching-stops-at-merged-add, perfile-graph-lists-merge-keeping-this-text.
+
+Mutants this was built against (scratch worktree /var/tmp/wt-C25 with the fixes applied; see report):
+  M1 reverse_by_depth: zd_revisions.reverse() dropped                                   -> oracle
+  M2 reverse_by_depth: sub-chunks not reversed (recursion dropped)                      -> oracle
+  M3 _rebase_merge_depth: `d - min_depth` -> `d - min_depth + 1`                        -> oracle
+  M4 _graph_view_revisions: depth adjustment never reduced                              -> oracle (negative depth)
+  M5 _linear_view_revisions: start revision dropped (`if not exclude_common_ancestry` inverted) -> oracle
+  M6 _calc_view_revisions: forward linear view not reversed                             -> oracle
+  M7 iter_log_revisions: `merge_depth >= self.levels` -> `>`                            -> oracle
+  M8 iter_log_revisions: limit off by one (`log_count > self.limit`)                    -> oracle
+  M9 _filter_revisions_touching_path: `del current_merge_stack[depth + 1:]` -> `[depth + 2:]` -> oracle
+  M10 _generate_all_revisions: initial (delayed) revisions dropped from the chain       -> oracle
+  M11 _graph_view_revisions: stop rule 'with-merges' -> 'include'                       -> oracle
+  M13 _filter_revisions_touching_path: `node[2] == 0` -> `node[2] <= 1` without merges  -> oracle
+  H1 harmless: min() in _rebase_merge_depth replaced by a loop                          -> clean
+  H2 equivalent: reverse_by_depth `val[2] == _depth` -> `<=` (all depths are >= _depth there,
+     theorem rbd_core) -> clean
 """
 import random
 
@@ -393,6 +402,14 @@ def oracle(w, gi, facts, q, res, results, extra_run=None, sres=None):
                 exp = ".".join(map(str, numbering[node]))
                 if n_ != exp:
                     bad.append("revision r%s is listed with revno %r, its dotted revno is %s" % (r, n_, exp))
+    if k in ("log", "filelog") and res:
+        lv_ = q[4] if k == "log" else q[3]
+        if any(v[2] is not None and v[2] < 0 for v in res):
+            bad.append("a revision is listed with a negative merge depth: %r" % (res,))
+        if lv_ and any(v[2] is not None and v[2] >= lv_ for v in res):
+            bad.append("levels=%d lists a revision of depth >= %d: %r" % (lv_, lv_, res))
+        if k == "log" and q[3] == "r" and res[0][2] not in (0, None):
+            bad.append("the newest revision of a reverse log is shown at depth %r: %r" % (res[0][2], res))
     if k == "log" and res is not None:
         _, s, e, d, lv, lim, x = q
         if s is None and e is None and not x:
@@ -445,22 +462,14 @@ def oracle(w, gi, facts, q, res, results, extra_run=None, sres=None):
                     if d == "f" and sorted(got) != sorted(exp):
                         bad.append("forward range %r..%r lists %r, expected the set %r" % (s, e, sorted(got), sorted(exp)))
     if k in ("log", "calc") and sres == "E:StartNotLinearAncestor":
-        fam = None
-        s_, e_ = q[1], q[2]
-        if s_ is not None and e_ is None:
-            fam = "start-without-end"
-        if s_ is not None and e_ is not None and s_ in numbering and e_ in numbering:
-            a_, b_ = numbering[s_], numbering[e_]
-            if len(a_) == 3 and len(b_) == 3 and a_[0] == b_[0] and a_[1] != b_[1]:
-                fam = "obvious-ancestor-compares-first-number-only"
-        bad.append(("the internal exception _StartNotLinearAncestor escapes from the request %r" % (q,), fam))
+        bad.append(("the internal exception _StartNotLinearAncestor escapes from the request %r" % (q,), None))
     if k == "log" and q[1] is not None and q[2] is None and tip is not None and extra_run is not None:
         # a request with a start but no end means "up to the tip"
         s2, res2 = extra_run(("log", q[1], tip) + tuple(q[3:]))
         if res2 is not None and res != res2:
             bad.append(("log from r%s without an end revision gives %s, with the tip as explicit end %s"
                         % (q[1], "an error" if res is None else fmt_views(res), fmt_views(res2)),
-                        "start-without-end" if res is None else None))
+                        None))
     if k == "filelog" and res is not None:
         _, path, d, lv, deltas = q
         cont = w["content"]
@@ -505,11 +514,6 @@ def file_family(w, gi, facts, q, got, expected):
     only_got = [x for x in got_sorted if x not in expected]
     if only_got:
         return None
-    if d == "f":
-        # get_revision_deltas follows specific_files towards the *parent*: in forward order nothing is left
-        # after the first revision of every batch
-        return "forward-delta-matching-loses-later-revisions"
-
     def keeps_this(x):
         # a mainline merge whose text is its left parent's (the tree delta does not touch the file) while the
         # per-file graph has a node for it or for a revision it merged
@@ -519,6 +523,8 @@ def file_family(w, gi, facts, q, got, expected):
 
     if all(keeps_this(x) for x in only_exp):
         return "perfile-graph-lists-merge-keeping-this-text"
+    if d == "f":
+        return None
     # delta matching stops at the first revision that *adds* the path: a root that is not the mainline's own
     roots_off = [a for a in facts["anc"] if (not g[a] or g[a][0] not in g) and a not in lh]
     rest = [x for x in only_exp if not keeps_this(x)]
@@ -558,6 +564,8 @@ def run_fworld(args):
                 fails = []
                 if res is not None:
                     views, mod, l = res
+                    if not q[2] and any(v[2] for v in l):
+                        fails.append(("without merges a merged revision is listed for %s: %r" % (q[1], l), None))
                     if inc_missing(q, views, mod, l):
                         fails.append(("a revision that modified %s is not in the filtered list: %r" % (q[1], inc_missing(q, views, mod, l)), None))
             else:
@@ -627,16 +635,35 @@ def replay(ctx, case):
         return dict(impl=impl, model=m, agree=impl == m)
     w = dict(g=case["g"], tip=case["tip"], content=case["content"], qseed=0)
     q = tuple(case["q"])
-    r = run_fworld((dict(w, qseed=0), dict(range=0)))
     g = c22.world_graph(w)
+    gi = c22.GI(g)
+    tip = w["tip"]
+    from vcsgraph.known_graph import KnownGraph
+    ms = list(KnownGraph({k: tuple(v) for k, v in g.items()}).merge_sort(tip)) if tip is not None else []
+    facts = dict(lh=gi.lefthand(tip) if tip is not None else [],
+                 numbering={x.key: tuple(x.revno) for x in ms},
+                 anc=sorted(gi.panc(tip)) if tip is not None else [],
+                 full=[(x.key, x.merge_depth, tuple(x.revno)) for x in ms])
     world = FWorld(w)
     b = world.branch
+    results = {}
     with b.lock_read():
+        # the requests the oracle compares with
+        base = [("log", None, None, d, lv, 0, False) for d in "rf" for lv in (0, 1, 2)]
+        if q[0] == "filelog":
+            base.append(("filelog", q[1], q[2], q[3], not q[4]))
+        for bq in base:
+            results[bq] = run_request(b, g, bq)[1]
         s, res = run_request(b, g, q)
+        if q[0] == "touch":
+            fails = []
+            if res is not None and inc_missing(q, *res):
+                fails.append(("a revision that modified %s is not in the filtered list: %r" % (q[1], inc_missing(q, *res)), None))
+        else:
+            fails = oracle(w, gi, facts, q, res, results, extra_run=lambda qq: run_request(b, g, qq), sres=s)
     line = model_line(w, q, res if q[0] == "touch" else None)
     m = ctx.model([line])[0] if line else None
-    fails = [f for qq, ss, ff, ll in r["results"] if tuple(qq) == q for f in ff]
     for f, fam in fails:
         ctx.violation(case, f, family=fam)
-    fails = [f for f, fam in fails]
-    return dict(query=list(q), impl=s, model=m, agree=(m is None or s == m or "E:Unsupported" in m), oracle_failures=fails)
+    return dict(query=list(q), impl=s, model=m, agree=(m is None or s == m or "E:Unsupported" in m),
+                oracle_failures=[f for f, fam in fails], families=[fam for f, fam in fails])
